@@ -186,3 +186,226 @@ def install_pointwise_cm(sess):
     # name bound at import in the package namespace
     if getattr(score_analysis, "pointwise_cm", None) is not None:
         sess.wrap(score_analysis, "pointwise_cm", "M-pw", post)
+
+
+# --------------------------------------------------------------------------------------
+# M-thr: threshold setting (C02 round trip / coherence / monotonicity, C03 extremes)
+
+THR_METRICS = {
+    "tpr": "tpr", "fnr": "fnr", "tnr": "tnr", "fpr": "fpr", "topr": "topr", "tonr": "tonr",
+    "tar": "tpr", "frr": "fnr", "trr": "tnr", "far": "fpr", "acceptance_rate": "topr", "rejection_rate": "tonr",
+}
+
+
+def population(s, metric):
+    if metric in ("tpr", "fnr"):
+        return s.nb_all_pos
+    if metric in ("tnr", "fpr"):
+        return s.nb_all_neg
+    return s.nb_all_samples
+
+
+def relevant_scores(s, metric):
+    if metric in ("tpr", "fnr"):
+        return np.asarray(s.pos, dtype=float)
+    if metric in ("tnr", "fpr"):
+        return np.asarray(s.neg, dtype=float)
+    return np.sort(np.concatenate([np.asarray(s.pos, dtype=float), np.asarray(s.neg, dtype=float)]))
+
+
+def nudge(t, k, direction):
+    t = np.array(t, dtype=float, copy=True)
+    for _ in range(k):
+        t = np.nextafter(t, direction)
+    return t
+
+
+def nearest_dist(rel_sorted, t):
+    j = np.searchsorted(rel_sorted, t)
+    left = rel_sorted[np.clip(j - 1, 0, len(rel_sorted) - 1)]
+    right = rel_sorted[np.clip(j, 0, len(rel_sorted) - 1)]
+    return np.minimum(np.abs(t - left), np.abs(t - right))
+
+
+def target_class(r, N, lo, hi):
+    if r < 0:
+        return "<0"
+    if r == 0:
+        return "0"
+    if r == 1:
+        return "1"
+    if r > 1:
+        return ">1"
+    if r < lo or r > hi:
+        return "unachievable"
+    x = r * N
+    return "grid" if abs(x - round(x)) < 1e-9 else "offgrid"
+
+
+def _tclasses(r, N, lo, hi):
+    """Vectorised target_class."""
+    x = r * N
+    out = np.where(np.abs(x - np.round(x)) < 1e-9, "grid", "offgrid").astype(object)
+    out[(r < lo) | (r > hi)] = "unachievable"
+    out[r < 0] = "<0"
+    out[r == 0] = "0"
+    out[r == 1] = "1"
+    out[r > 1] = ">1"
+    return out
+
+
+def _bulk(sess, monitor, ok, what, key, sig, tcs, witness):
+    """Records len(ok) oracle decisions; builds witnesses only for the failures."""
+    ok = np.asarray(ok, dtype=bool)
+    n_ok = int(ok.sum())
+    m = sess.mon(monitor)
+    m.in_scope += n_ok
+    m.held += n_ok
+    if tcs is not None:
+        u, c = np.unique(tcs.astype(str), return_counts=True)
+        for a, b in zip(u.tolist(), c.tolist()):
+            sess.sig_counts[sig + (a,)] += b
+    else:
+        sess.sig_counts[sig] += len(ok)
+    if n_ok != len(ok):
+        for i in np.nonzero(~ok)[0].tolist():
+            sess.check(monitor, False, what, lambda i=i: witness(i), key=key)
+
+
+def judge_thr(sess, s, name, target, method, res, facets, monitor="M-thr", max_targets=48):
+    metric = THR_METRICS[name]
+    rel = relevant_scores(s, metric)
+    tgt = np.asarray(target)
+    if len(rel) == 0:
+        sess.skip(monitor, "empty relevant class")
+        return
+    if tgt.dtype.kind not in "fiub" or tgt.size == 0:
+        sess.skip(monitor, "non-numeric or empty target")
+        return
+    tgt = tgt.astype(float)
+    if np.any(np.isnan(tgt)) or not np.all(np.isfinite(rel)) or np.abs(rel).max() > 1e9:
+        sess.skip(monitor, "NaN target / non-finite or huge scores")
+        return
+    if method not in ("linear", "lower", "higher"):
+        sess.skip(monitor, "invalid method")
+        return
+    thr = np.asarray(res, dtype=float)
+    if thr.shape != tgt.shape:
+        sess.check(monitor, False, "threshold shape differs from target shape",
+                   lambda: {"target_shape": tgt.shape, "result_shape": thr.shape}, key="thr-shape")
+        return
+    r = tgt.reshape(-1)
+    t = thr.reshape(-1)
+    if len(r) > max_targets:
+        idx = np.unique(np.linspace(0, len(r) - 1, max_targets).astype(int))
+        r, t = r[idx], t[idx]
+    f = getattr(s, metric)
+    N = population(s, metric)
+    ends = np.asarray(f(np.array([-np.inf, np.inf])), dtype=float)
+    lo, hi = float(ends.min()), float(ends.max())
+    sc, ec = cfg_of(s)
+    ties = len(np.unique(rel)) < len(rel)
+    sig = (metric, sc, ec, method, s.nb_easy_pos > 0, s.nb_easy_neg > 0, "ties" if ties else "tiefree")
+    tol = 1.0 / N + 1e-12
+    m_t = np.atleast_1d(np.asarray(f(t), dtype=float))
+    tcs = _tclasses(r, N, lo, hi)
+
+    def base(i):
+        pos, neg = src_lists(s)
+        return {"metric": name, "method": method, "cfg": [sc, ec], "easy": [int(s.nb_easy_pos), int(s.nb_easy_neg)],
+                "pos": pos, "neg": neg, "target": float(r[i]), "threshold": float(t[i]), "metric_at_threshold": float(m_t[i]),
+                "achievable": [lo, hi], "N": int(N)}
+
+    if "extreme" in facets:
+        ext = (r <= 0.0) | (r >= 1.0)
+        if ext.any():
+            want = np.where(r <= 0.0, lo, hi)
+            e = np.nonzero(ext)[0]
+            _bulk(sess, monitor, (m_t == want)[e], "extreme target not honoured exactly", "extreme", sig, tcs[e],
+                  lambda k: dict(base(e[k]), expected_metric=float(want[e[k]])))
+    if "roundtrip" in facets and method == "linear":
+        rc = np.clip(r, lo, hi)
+        m_lo = np.atleast_1d(np.asarray(f(nudge(t, 4, -np.inf)), dtype=float))
+        m_hi = np.atleast_1d(np.asarray(f(nudge(t, 4, np.inf)), dtype=float))
+        vmin = np.minimum(np.minimum(m_lo, m_hi), m_t)
+        vmax = np.maximum(np.maximum(m_lo, m_hi), m_t)
+        ok_br = (vmin - tol <= rc) & (rc <= vmax + tol)
+        _bulk(sess, monitor, ok_br, "metric around the returned threshold does not bracket the (clipped) target within one sample",
+              "roundtrip-bracket", sig, tcs,
+              lambda i: dict(base(i), clipped_target=float(rc[i]), metric_4ulp_below=float(m_lo[i]), metric_4ulp_above=float(m_hi[i])))
+        if not ties:
+            far = nearest_dist(rel, t) > 4 * np.spacing(np.maximum(np.abs(t), 1e-300))
+            e = np.nonzero(far)[0]
+            if len(e):
+                _bulk(sess, monitor, (np.abs(m_t - rc) <= tol)[e],
+                      "tie-free: metric at the returned threshold is more than one sample from the target", "roundtrip-exact", sig, tcs[e],
+                      lambda k: dict(base(e[k]), clipped_target=float(rc[e[k]])))
+    if "coherence" in facets and method == "linear":
+        th_at = getattr(s, "threshold_at_" + metric)
+        tl = np.atleast_1d(np.asarray(th_at(r, method="lower"), dtype=float))
+        th = np.atleast_1d(np.asarray(th_at(r, method="higher"), dtype=float))
+        sent_lo = np.nextafter(rel[0], -np.inf)
+        sent_hi = np.nextafter(rel[-1], np.inf)
+        m_l = np.atleast_1d(np.asarray(f(tl), dtype=float))
+        m_h = np.atleast_1d(np.asarray(f(th), dtype=float))
+
+        def coh(i, **kw):
+            return dict(base(i), t_lower=float(tl[i]), t_higher=float(th[i]), m_lower=float(m_l[i]), m_higher=float(m_h[i]), **kw)
+
+        for nm, tv in (("lower", tl), ("higher", th)):
+            is_score = (nearest_dist(rel, tv) == 0) | (tv == sent_lo) | (tv == sent_hi)
+            _bulk(sess, monitor, is_score, f"'{nm}' threshold is neither a sample score nor the sentinel", "coh-score-" + nm, sig, None, coh)
+        _bulk(sess, monitor, m_l <= m_h, "metric(lower) > metric(higher)", "coh-order", sig, tcs, coh)
+        a = np.minimum(tl, th)
+        b = np.maximum(tl, th)
+        eps4 = 4 * np.spacing(np.maximum(np.maximum(np.abs(a), np.abs(b)), 1e-300))
+        _bulk(sess, monitor, (a - eps4 <= t) & (t <= b + eps4), "'linear' threshold not between 'lower' and 'higher'", "coh-between", sig, None, coh)
+        sentinel = (tl == sent_lo) | (tl == sent_hi) | (th == sent_lo) | (th == sent_hi)
+        interior = (lo < r) & (r < hi) & ~sentinel & (b > a)
+        e = np.nonzero(interior)[0]
+        if len(e):
+            fr = (r[e] * N) % 1.0
+            w = (t[e] - tl[e]) / (th[e] - tl[e])  # implied weight on 'higher'
+            d = np.abs(w - fr)
+            d = np.minimum(d, 1.0 - d)  # circular: at grid targets lower/higher flip legitimately
+            wtol = 1e-9 * N + 16 * np.spacing(np.maximum(np.maximum(np.abs(a[e]), np.abs(b[e])), 1e-300)) / (b[e] - a[e])
+            _bulk(sess, monitor, d <= wtol, "'linear' is not the convex combination of lower/higher weighted by frac(r*N)", "coh-convex", sig, tcs[e],
+                  lambda k: coh(e[k], implied_weight=float(w[k]), frac_rN=float(fr[k])))
+    if "monotone" in facets and len(r) >= 2:
+        order = np.argsort(r, kind="stable")
+        ts = t[order]
+        d = np.diff(ts)
+        tolv = 4 * np.spacing(np.maximum(np.maximum(np.abs(ts[1:]), np.abs(ts[:-1])), 1e-300))
+        ok = bool(np.all(d >= -tolv) or np.all(d <= tolv))
+        sess.check(monitor, ok, "threshold is not a monotone function of the target",
+                   lambda: dict(base(0), targets_sorted=r[order], thresholds=ts), sig=sig, key="monotone-" + method)
+
+
+def install_thr(sess, facets, max_targets=48):
+    S = lib()
+    install_ctor_snapshot(sess)
+
+    def make_post(name):
+        def post(snap, args, kwargs, res):
+            self = args[0]
+            kw = dict(kwargs)
+            method = kw.pop("method", "linear")
+            if len(args) > 1:
+                target = args[1]
+            elif kw:
+                target = next(iter(kw.values()))
+            else:
+                return
+            judge_thr(sess, self, name, target, method, res, facets, max_targets=max_targets)
+
+        return post
+
+    for name in THR_METRICS:
+        sess.wrap(S.Scores, "threshold_at_" + name, "M-thr", make_post(name))
+
+
+def oracle_scope_ctx():
+    """Context manager for drivers that need library calls which must not be judged."""
+    from . import attach
+
+    return attach.oracle_scope()
